@@ -79,7 +79,7 @@ impl MemfsFile {
             forall|i: int| r->Ok_0 as int <= i < old(buf)@.len() ==> final(buf)@[i] == old(buf)@[i],              //@ clause read.rest_untouched [C07]
 //@ body
 
-//@ item seek file=src/sys/fs/memfs/file.rs block="impl io::Seek for MemfsFile" fn=seek props=C07,C12
+//@ item seek file=src/sys/fs/memfs/file.rs block="impl io::Seek for MemfsFile" fn=seek props=C07,C12,C06
 //@ sig fn seek(&mut self, pos: io::SeekFrom) -> std::io::Result<u64>
     pub fn seek(&mut self, pos: io::SeekFrom) -> (r: io::Result<u64>)
         ensures
